@@ -65,6 +65,10 @@ func (f *Tagbody) Call(s *slip.Scope, args slip.List, depth int) slip.Object {
 						break
 					}
 				}
+				if len(args) <= i {
+					// Not a tag of this tagbody, it is for an outer one.
+					return tr
+				}
 			}
 		}
 	}
